@@ -1,20 +1,27 @@
-/- Helper lemmas for C03 (agreement with the RFC-table transcription) and C05 (parser totality). -/
+/- Helper lemmas for C03 (agreement with the RFC-table transcription) and C05 (parser totality).
+   The work is in `SpecEq.lean` (C03), `Total.lean` (parser: no panic, no fuel exhaustion) and
+   `TotalEnc.lean` (analysis of a valid stream: no panic). -/
 import Preflate.Model.Spec
 import Preflate.Model.Valid
+import Preflate.Proofs.SpecEq
+import Preflate.Proofs.Total
+import Preflate.Proofs.TotalEnc
 namespace Preflate.Proofs
 open Preflate
 
 /-- the model parser (regenerated tables) and the RFC-table transcription are the same function -/
-theorem parseBits_eq_spec (bs : Bits) : parseBits bs = Spec.parseBits bs := by
-  sorry
+theorem parseBits_eq_spec (bs : Bits) : parseBits bs = Spec.parseBits bs :=
+  parseBits_eq_spec' bs
 
 /-- the parser never panics -/
 theorem parseBits_no_panic (bs : Bits) (m : String) : parseBits bs ≠ .error (.panic m) := by
-  sorry
+  intro h
+  cases parseBits_error bs _ h
 
 /-- the parser never runs out of fuel: every loop iteration consumes at least one bit -/
 theorem parseBits_no_fuel (bs : Bits) : parseBits bs ≠ .error .fuel := by
-  sorry
+  intro h
+  cases parseBits_error bs _ h
 
 variable {H : Type}
 
@@ -24,6 +31,9 @@ theorem encStream_no_panic (P : Pred H) (plain : Array Nat) (blocks : List Block
     (hv : StreamValid plain blocks)
     (hP : ∀ s m, P.repredictTok plain s ≠ .error (.panic m)) (m : String) :
     encStream P plain blocks pad ≠ .error (.panic m) := by
-  sorry
+  intro h
+  have := encStream_post P plain blocks pad hv hP
+  rw [h] at this
+  exact Post.error_iff.mp this m rfl
 
 end Preflate.Proofs
